@@ -288,7 +288,8 @@ fn bbox_of(pts: &[(bool, i16, i16)]) -> [i16; 4] {
 }
 
 fn gen_len(rng: &mut Rng, small: u64) -> usize {
-    match rng.below(40) {
+    // mostly short; now and then a length in each 255UInt16 range (one byte, 253.., 506.., 762..)
+    match rng.below(400) {
         0 => 250 + rng.below(12) as usize,
         1 => 500 + rng.below(12) as usize,
         2 => 755 + rng.below(12) as usize,
@@ -392,12 +393,12 @@ fn gen_composite(rng: &mut Rng, ng: usize) -> G {
 }
 
 fn gen_glyphs(rng: &mut Rng) -> Vec<G> {
-    let n = match rng.below(20) {
-        0 => 0,
-        1 => 1,
-        2 => 30 + rng.below(10) as usize, // crosses the 32-glyph bitmap word
-        3 => 60 + rng.below(10) as usize,
-        _ => 1 + rng.below(8) as usize,
+    let n = match rng.below(40) {
+        0 | 1 => 0,
+        2 | 3 => 1,
+        4 => 30 + rng.below(10) as usize, // crosses the 32-glyph bitmap word
+        5 => 60 + rng.below(10) as usize,
+        _ => 1 + rng.below(6) as usize,
     };
     (0..n)
         .map(|_| match rng.below(8) {
